@@ -1,4 +1,6 @@
 import SFV.Lemmas.Sh
+import SFV.Lemmas.FS
+import SFV.Model.ShellRun
 import SFV.Gen.CmdTemplates
 /-! # C24 — remote path operations agree with the local filesystem
 
@@ -87,5 +89,116 @@ def witnessFails (t : Template) : Bool := witnesses.any (fun w => !verbatimOn t 
 theorem every_template_quoted_or_witness :
     allTemplates.all (fun t => (allShQuoted t && placed ⟨.unq, true⟩ t) != witnessFails t) = true := by
   decide +kernel
+
+/-! ### refinement of the local API on a file-system model (no symbolic links)
+
+`SFV/Model/FS.lean`: what `test`, `mkdir [-p]`, `rm -rf`, `cat` do is *assumed* (textbook behaviour, validated
+differentially); what is proved is how the flag logic and post-processing of `RemoteStreamFlowPath` relate to
+`LocalStreamFlowPath`. Together with `quoted_ops_verbatim` (the shell sees the intended path) this is
+`op_refines_local` for the operations below; all other operations are validated differentially only. -/
+open SFV.FS
+
+/-- `exists` / `is_dir` / `is_file`: `test -e <path>` (`-d`, `-f`) answers what the local API answers -/
+theorem test_ops_refine_local (fs : FS) (p : Path) :
+    remoteExists fs p = exists_ fs p ∧ remoteIsDir fs p = isDir fs p ∧ remoteIsFile fs p = isFile fs p :=
+  ⟨rfl, rfl, rfl⟩
+
+/-- the local `mkdir` at the top level: the recursion into parents needs at most `len - 1` steps -/
+def localMkdirTop (fs : FS) (p : Path) (parents existOk : Bool) : Option FS := localMkdir (p.length - 1) fs p parents existOk
+
+/-- **`mkdir` agrees with the local API when `parents = exist_ok`** (what is missing for the full statement: the remote side
+    adds `-p` when *either* flag is set) -/
+theorem mkdir_refines_local_partial (fs : FS) (p : Path) (b : Bool) :
+    remoteMkdir fs p b b = localMkdirTop fs p b b := by
+  unfold remoteMkdir localMkdirTop
+  cases b with
+  | true =>
+    simp only [Bool.or_self, if_true]
+    cases p with
+    | nil =>
+      simp only [List.length_nil, mkdirP]
+      rw [localMkdir.eq_def]
+      cases h : fs [] with
+      | none => simp [isDir, h]
+      | some nd => cases nd <;> simp [isDir, h]
+    | cons a r =>
+      show mkdirP (r.length + 1) fs (a :: r) = localMkdir (r.length + 1 - 1) fs (a :: r) true true
+      rw [mkdirP_eq_local]; rfl
+  | false =>
+    simp only [Bool.or_self, Bool.false_eq_true, if_false]
+    unfold mkdirPlain
+    rw [localMkdir.eq_def]
+    by_cases he : p = []
+    · subst he
+      cases h : fs [] <;> simp [h]
+    · cases h : fs p with
+      | some nd => simp [he, h]
+      | none =>
+        simp only [he, if_false, h, Option.isSome_none, Bool.false_eq_true]
+        cases hpar : fs p.dropLast with
+        | none => simp [isDir, hpar]
+        | some nd => cases nd <;> simp [isDir, hpar]
+
+/-- a root directory and nothing else -/
+def emptyRoot : FS := fun q => if q = [] then some .dir else none
+
+/-- the full statement is FALSE: `mkdir(parents=False, exist_ok=True)` with a missing parent fails locally, succeeds remotely -/
+theorem mkdir_exist_ok_implies_parents_false :
+    localMkdirTop emptyRoot ["a", "b"] false true = none ∧ (remoteMkdir emptyRoot ["a", "b"] false true).isSome = true := by
+  constructor
+  · simp [localMkdirTop, localMkdir, emptyRoot]
+  · simp [remoteMkdir, mkdirP, emptyRoot, isDir]
+
+/-- … and `mkdir(parents=True, exist_ok=False)` on an existing directory fails locally, succeeds remotely -/
+theorem mkdir_parents_implies_exist_ok_false :
+    localMkdirTop emptyRoot [] true false = none ∧ (remoteMkdir emptyRoot [] true false).isSome = true := by
+  constructor
+  · simp [localMkdirTop, localMkdir, emptyRoot]
+  · simp [remoteMkdir, mkdirP, emptyRoot, isDir]
+
+/-- **`rmtree` agrees with the local API** on well-formed file systems (without symbolic links) -/
+theorem rmtree_refines_local (fs : FS) (p : Path) (hwf : WF fs) : remoteRmtree fs p = localRmtree fs p := by
+  unfold remoteRmtree rmRf localRmtree
+  by_cases he : exists_ fs p = true
+  · simp [he]
+  · simp only [he, if_false, Bool.false_eq_true]
+    funext q
+    simp only [removeTree]
+    by_cases hpre : p <+: q
+    · simp only [hpre, if_true]
+      -- nothing exists below a missing path
+      by_cases hq : fs q = none
+      · exact hq.symm
+      · exfalso
+        by_cases hpq : p = q
+        · subst hpq; simp [exists_] at he; exact hq he
+        · have := hwf q hq p hpre hpq
+          simp [exists_, this] at he
+    · simp [hpre]
+
+/-- `cat <path>` through the shell, then `result.strip()` -/
+def remoteReadText (fs : FS) (p : Path) : Option (List Char) :=
+  match fs p with
+  | some (.file c) => some (SFV.ShellRun.strip c)
+  | _ => none
+
+def localReadText (fs : FS) (p : Path) : Option (List Char) :=
+  match fs p with
+  | some (.file c) => some c
+  | _ => none
+
+/-- **`read_text` equals the local result only up to `strip`** -/
+theorem read_text_refines_local_partial (fs : FS) (p : Path) :
+    remoteReadText fs p = (localReadText fs p).map SFV.ShellRun.strip := by
+  unfold remoteReadText localReadText
+  cases h : fs p with
+  | none => rfl
+  | some nd => cases nd <;> rfl
+
+/-- the full statement is FALSE: a trailing newline is lost -/
+theorem read_text_full_false :
+    remoteReadText (fun q => if q = ["f"] then some (.file ['x', '\n']) else none) ["f"]
+      ≠ localReadText (fun q => if q = ["f"] then some (.file ['x', '\n']) else none) ["f"] := by
+  decide
 
 end SFV.C24
